@@ -8,7 +8,10 @@
 // A second part compares the regex validator (the variant this build uses) with the hand-written one.
 #include <opentelemetry/sdk/metrics/instrument_metadata_validator.h>
 
+#include <opentelemetry/sdk/metrics/view/view_registry.h>
+
 #include <algorithm>
+#include <regex>
 #include <fcntl.h>
 #include <sys/syscall.h>
 #include <unistd.h>
@@ -16,11 +19,12 @@
 #  include <sanitizer/common_interface_defs.h>
 #endif
 
-#include "c19_common.h"
+#include "c19_kinds.h"
 
 namespace c19 {
 bool noregex_name(opentelemetry::nostd::string_view v);
 bool noregex_unit(opentelemetry::nostd::string_view v);
+bool noregex_view_applies(int instrument_type, const std::string &name_sel, const std::string &unit_sel, const std::string &name, const std::string &unit);
 }  // namespace c19
 
 #if defined(__SANITIZE_ADDRESS__)
@@ -96,66 +100,6 @@ Tri unit_class(const std::string &s, const char **why) {
   return nul ? DONT_CARE : MUST_ACCEPT;  // whether NUL is an "ASCII character" is not said
 }
 
-// ---- instrument kinds -----------------------------------------------------------------------------
-struct Holder {
-  nostd::unique_ptr<mapi::Counter<uint64_t>> c_u;
-  nostd::unique_ptr<mapi::Counter<double>> c_d;
-  nostd::unique_ptr<mapi::Histogram<uint64_t>> h_u;
-  nostd::unique_ptr<mapi::Histogram<double>> h_d;
-  nostd::unique_ptr<mapi::UpDownCounter<int64_t>> u_i;
-  nostd::unique_ptr<mapi::UpDownCounter<double>> u_d;
-  nostd::shared_ptr<mapi::ObservableInstrument> obs;
-  bool null_returned = false;
-};
-void observe7(mapi::ObserverResult r, void *) {
-  if (nostd::holds_alternative<nostd::shared_ptr<mapi::ObserverResultT<int64_t>>>(r)) nostd::get<nostd::shared_ptr<mapi::ObserverResultT<int64_t>>>(r)->Observe(7);
-  else nostd::get<nostd::shared_ptr<mapi::ObserverResultT<double>>>(r)->Observe(7.0);
-}
-struct KindInfo { const char *label; sm::InstrumentType type; sm::InstrumentValueType vt; };
-const KindInfo kKinds[12] = {
-    {"UInt64Counter", sm::InstrumentType::kCounter, sm::InstrumentValueType::kLong},
-    {"DoubleObservableGauge", sm::InstrumentType::kObservableGauge, sm::InstrumentValueType::kDouble},
-    {"DoubleHistogram", sm::InstrumentType::kHistogram, sm::InstrumentValueType::kDouble},
-    {"Int64UpDownCounter", sm::InstrumentType::kUpDownCounter, sm::InstrumentValueType::kLong},
-    {"Int64ObservableCounter", sm::InstrumentType::kObservableCounter, sm::InstrumentValueType::kLong},
-    {"DoubleObservableUpDownCounter", sm::InstrumentType::kObservableUpDownCounter, sm::InstrumentValueType::kDouble},
-    {"DoubleCounter", sm::InstrumentType::kCounter, sm::InstrumentValueType::kDouble},
-    {"UInt64Histogram", sm::InstrumentType::kHistogram, sm::InstrumentValueType::kLong},
-    {"DoubleUpDownCounter", sm::InstrumentType::kUpDownCounter, sm::InstrumentValueType::kDouble},
-    {"DoubleObservableCounter", sm::InstrumentType::kObservableCounter, sm::InstrumentValueType::kDouble},
-    {"Int64ObservableGauge", sm::InstrumentType::kObservableGauge, sm::InstrumentValueType::kLong},
-    {"Int64ObservableUpDownCounter", sm::InstrumentType::kObservableUpDownCounter, sm::InstrumentValueType::kLong},
-};
-void create(int kind, mapi::Meter &m, nv name, nv desc, nv unit, Holder &h) {
-  switch (kind) {
-    case 0: h.c_u = m.CreateUInt64Counter(name, desc, unit); h.null_returned = !h.c_u; break;
-    case 1: h.obs = m.CreateDoubleObservableGauge(name, desc, unit); break;
-    case 2: h.h_d = m.CreateDoubleHistogram(name, desc, unit); h.null_returned = !h.h_d; break;
-    case 3: h.u_i = m.CreateInt64UpDownCounter(name, desc, unit); h.null_returned = !h.u_i; break;
-    case 4: h.obs = m.CreateInt64ObservableCounter(name, desc, unit); break;
-    case 5: h.obs = m.CreateDoubleObservableUpDownCounter(name, desc, unit); break;
-    case 6: h.c_d = m.CreateDoubleCounter(name, desc, unit); h.null_returned = !h.c_d; break;
-    case 7: h.h_u = m.CreateUInt64Histogram(name, desc, unit); h.null_returned = !h.h_u; break;
-    case 8: h.u_d = m.CreateDoubleUpDownCounter(name, desc, unit); h.null_returned = !h.u_d; break;
-    case 9: h.obs = m.CreateDoubleObservableCounter(name, desc, unit); break;
-    case 10: h.obs = m.CreateInt64ObservableGauge(name, desc, unit); break;
-    default: h.obs = m.CreateInt64ObservableUpDownCounter(name, desc, unit); break;
-  }
-  if (kind == 1 || kind == 4 || kind == 5 || kind >= 9) h.null_returned = !h.obs;
-}
-void measure(int kind, Holder &h) {
-  ot::context::Context ctx;
-  switch (kind) {
-    case 0: h.c_u->Add(7); break;
-    case 2: h.h_d->Record(7.0, ctx); break;
-    case 3: h.u_i->Add(7); break;
-    case 6: h.c_d->Add(7.0); break;
-    case 7: h.h_u->Record(7, ctx); break;
-    case 8: h.u_d->Add(7.0); break;
-    default: h.obs->AddCallback(observe7, nullptr); break;
-  }
-}
-
 // ---- inputs -----------------------------------------------------------------------------------------
 std::string base_name(size_t len) {
   static const char fill[] = "b1_.-/Z9y";
@@ -180,11 +124,16 @@ enum Shape { CSTR = 0, SLICE_VALID_TAIL = 1, SLICE_INVALID_TAIL = 2, HEAP = 3 };
 const char *const kShape[4] = {"std::string", "slice+valid-tail", "slice+invalid-tail", "exact-heap-block"};
 
 struct Case {
-  uint8_t what;  // 0 name, 1 unit, 2 validator differential (name), 3 validator differential (unit)
+  uint8_t what;  // 0 name, 1 unit, 2 validator differential (name), 3 validator differential (unit), 4 view selectors without regex
   uint8_t shape, kind;
   uint32_t input;
 };
 std::vector<std::string> g_names, g_units;
+// view selectors for the part "view selection without working std::regex"
+const char *const kNameSel[] = {"abc", "*", "a.c", "a.*", "ab", "abcd", "zzz", "", "a[bx]c", "a-b/c_d", ".*"};
+constexpr uint32_t kNumNameSel = sizeof kNameSel / sizeof *kNameSel;
+const char *const kUnitSel[] = {"", "ms", "s"};
+constexpr uint32_t kNumUnitSel = sizeof kUnitSel / sizeof *kUnitSel;
 std::vector<Case> g_cases;
 constexpr int kBlock = 500;
 
@@ -196,7 +145,31 @@ uint32_t intern(std::vector<std::string> &tab, std::map<std::string, uint32_t> &
   return (uint32_t)tab.size() - 1;
 }
 
-void build(bool thorough) {
+// Which instrument kinds run which input set. Default: every kind of this ABI on the core sets, one kind per
+// family (thorough: every kind) on the byte sweeps, two kinds on the double mutations and the exact heap
+// blocks. --kinds=gauges (registry entry c19_names_abi2): the same for the two synchronous gauges only - the
+// rest of that build is the code the ABI v1 entry already runs.
+struct KindPlan { std::vector<int> core, sweep, twice, heap; bool diff = true; };
+KindPlan plan_kinds(bool thorough, const std::string &which) {
+  KindPlan p;
+  if (which == "gauges") {
+    for (int k = kFirstGaugeKind; k < kNumKinds; ++k) p.core.push_back(k);
+    p.sweep = p.core;
+    if (!thorough && p.sweep.size() > 1) p.sweep.resize(1);
+    p.heap = p.core;
+    p.diff = false;
+    return p;
+  }
+  for (int k = 0; k < kNumKinds; ++k) p.core.push_back(k);
+  p.sweep = p.core;
+  if (!thorough) p.sweep = {0, 1, 2, 3};
+  if (!thorough && kNumKinds > kFirstGaugeKind) p.sweep.push_back(kFirstGaugeKind);
+  p.twice = {0, 1};
+  p.heap = {0, 1};
+  return p;
+}
+
+void build(bool thorough, const KindPlan &kp) {
   std::map<std::string, uint32_t> nidx, uidx;
   std::vector<uint32_t> sweep, core, heapset;
   const size_t lens[] = {0, 1, 2, 254, 255, 256, 300};
@@ -248,22 +221,22 @@ void build(bool thorough) {
     }
   auto uniq = [](std::vector<uint32_t> &v) { std::sort(v.begin(), v.end()); v.erase(std::unique(v.begin(), v.end()), v.end()); };
   uniq(sweep); uniq(core); uniq(heapset); uniq(sweep2);
-  const int sweep_kinds = thorough ? 12 : 4;  // quick: one kind of each family (counter, observable, histogram, up-down counter)
   for (uint32_t id : core)
-    for (int k = 0; k < 12; ++k)
+    for (int k : kp.core)
       for (int sh = 0; sh < 3; ++sh) g_cases.push_back({0, (uint8_t)sh, (uint8_t)k, id});
   for (uint32_t id : sweep)
-    for (int k = 0; k < sweep_kinds; ++k)
+    for (int k : kp.sweep)
       for (int sh = 0; sh < 3; ++sh)
         if (!(std::binary_search(core.begin(), core.end(), id))) g_cases.push_back({0, (uint8_t)sh, (uint8_t)k, id});
   for (uint32_t id : sweep2)
-    for (int k = 0; k < 2; ++k)
+    for (int k : kp.twice)
       for (int sh = 0; sh < 3; ++sh)
         if (!std::binary_search(sweep.begin(), sweep.end(), id)) g_cases.push_back({0, (uint8_t)sh, (uint8_t)k, id});
   for (uint32_t id : heapset)
-    for (int k = 0; k < 2; ++k) g_cases.push_back({0, HEAP, (uint8_t)k, id});
-  for (uint32_t id : sweep)
-    for (int sh = 0; sh < 3; ++sh) g_cases.push_back({2, (uint8_t)sh, 0, id});
+    for (int k : kp.heap) g_cases.push_back({0, HEAP, (uint8_t)k, id});
+  if (kp.diff)
+    for (uint32_t id : sweep)
+      for (int sh = 0; sh < 3; ++sh) g_cases.push_back({2, (uint8_t)sh, 0, id});
 
   // --- units ---
   std::vector<uint32_t> usweep, usweep2, ucore, uheap;
@@ -296,19 +269,24 @@ void build(bool thorough) {
   }
   uniq(usweep); uniq(usweep2); uniq(ucore); uniq(uheap);
   for (uint32_t id : ucore)
-    for (int k = 0; k < 12; ++k)
+    for (int k : kp.core)
       for (int sh = 0; sh < 3; ++sh) g_cases.push_back({1, (uint8_t)sh, (uint8_t)k, id});
   for (uint32_t id : usweep)
-    for (int k = 0; k < sweep_kinds; ++k)
+    for (int k : kp.sweep)
       for (int sh = 0; sh < 3; ++sh)
         if (!std::binary_search(ucore.begin(), ucore.end(), id)) g_cases.push_back({1, (uint8_t)sh, (uint8_t)k, id});
   for (uint32_t id : usweep2)
-    for (int k = 0; k < 2; ++k)
+    for (int k : kp.twice)
       for (int sh = 0; sh < 3; ++sh)
         if (!std::binary_search(usweep.begin(), usweep.end(), id)) g_cases.push_back({1, (uint8_t)sh, (uint8_t)k, id});
-  for (uint32_t id : uheap) g_cases.push_back({1, HEAP, 0, id});
-  for (uint32_t id : usweep)
-    for (int sh = 0; sh < 3; ++sh) g_cases.push_back({3, (uint8_t)sh, 0, id});
+  for (uint32_t id : uheap) g_cases.push_back({1, HEAP, (uint8_t)kp.heap[0], id});
+  if (kp.diff) {
+    for (uint32_t id : usweep)
+      for (int sh = 0; sh < 3; ++sh) g_cases.push_back({3, (uint8_t)sh, 0, id});
+    // view selection in a build without working std::regex (c19_noregex.cc): every selector x every instrument
+    for (uint32_t sel = 0; sel < kNumNameSel; ++sel)
+      for (uint32_t usel = 0; usel < kNumUnitSel; ++usel) g_cases.push_back({4, 0, (uint8_t)usel, sel});
+  }
 }
 
 void setup(vf::Options &o) {
@@ -316,7 +294,7 @@ void setup(vf::Options &o) {
   o.deadline_s = o.thorough ? 1200 : 120;
   o.table_bits = 23;
   quiet_sdk_log();
-  build(o.thorough);
+  build(o.thorough, plan_kinds(o.thorough, o.get("kinds", "")));
 }
 
 // A string_view over `s` in the requested storage shape; the storage lives in `st`.
@@ -395,7 +373,7 @@ void run_create(vf::Ctx &c, const Case &k) {
     c.check(s.npoints == 1, "C19:create:measurement-lost", vf::sfmt("%zu points for ", s.npoints) + desc);
     // no view is registered: the stream carries the default aggregation of the instrument type
     const sm::InstrumentType ty = kKinds[k.kind].type;
-    const char *want_kind = ty == sm::InstrumentType::kHistogram ? "hist" : ty == sm::InstrumentType::kObservableGauge ? "last" : "sum";
+    const char *want_kind = default_point_kind(ty);
     c.check((s.kind == "sum-nonmono" ? std::string("sum") : s.kind) == want_kind, std::string("C19:default-aggregation:") + kKinds[k.kind].label,
             "point kind " + s.kind + " for the view-less " + desc);
   }
@@ -419,10 +397,19 @@ void run_diff(vf::Ctx &c, const Case &k) {
   const char *why = nullptr;
   Tri t = is_name ? (name_reject_reason(in) ? MUST_REJECT : MUST_ACCEPT) : unit_class(in, &why);
   bool want = t == MUST_ACCEPT;
+  const char *cls = is_name ? name_reject_reason(in) : why;
+  const bool slice = k.shape == SLICE_VALID_TAIL || k.shape == SLICE_INVALID_TAIL;
+  if (t != DONT_CARE && h != want) {
+    // The statement decides this input and the hand-written variant (the code a build without working
+    // std::regex uses) decides it the other way. The regex variant is held to the same reference through
+    // Meter::Create* above.
+    std::string sig = std::string("C19:noregex:") + (is_name ? "name" : "unit") + (want ? ":valid-rejected" : std::string(":invalid-accepted:") + cls) +
+                      (slice && !(cls && !strcmp(cls, "embedded-nul")) ? ":in-longer-buffer" : "");
+    c.report(sig, vf::sfmt("hand-written Validate%s (OPENTELEMETRY_HAVE_WORKING_REGEX == 0) %s the %s %s '%s' (%zu bytes, %s)", is_name ? "Name" : "Unit", h ? "accepts" : "rejects",
+                           want ? "valid" : "invalid", is_name ? "name" : "unit", vfq::printable(in, 48).c_str(), in.size(), kShape[k.shape]) +
+                      (in.empty() && slice ? ": it evaluates name[0] of an empty view, i.e. the byte behind it" : ""));
+  }
   if (r != h) {
-    // only counted: the hand-written variant is not what this build uses, the regex variant is held to the
-    // reference through Meter::Create* above
-    const char *cls = is_name ? name_reject_reason(in) : why;
     c.counted(vf::sfmt("vd:%s:%s:s%d:re%d,hw%d", is_name ? "name" : "unit", t == DONT_CARE ? "dont-care" : cls ? cls : "valid", (int)k.shape, (int)r, (int)h).c_str());
     if (t == DONT_CARE) c.counted("variants-disagree:dont-care-input");
     else c.counted(r == want ? "variants-disagree:hand-written-wrong" : "variants-disagree:regex-wrong");
@@ -435,6 +422,61 @@ void run_diff(vf::Ctx &c, const Case &k) {
   c.outcome(vf::sfmt("diff|%d|%d|%d|%d", (int)is_name, (int)r, (int)h, (int)t));
 }
 
+// View selection with and without working std::regex. The SDK of this build uses the regex branch of
+// view/predicate.h; c19_noregex.cc compiles the unchanged ViewRegistry / InstrumentSelector / MeterSelector /
+// PredicateFactory / PatternPredicate headers a second time with OPENTELEMETRY_HAVE_WORKING_REGEX == 0 under
+// other class names. One registered view (type Counter, name selector, unit selector, any meter) is asked
+// about every instrument of a small set; the statement decides: "*" selects every name, a selector equal to
+// the name selects it, a selector without pattern characters selects nothing else; a real pattern is held to
+// std::regex_match over the whole name in the regex build and is don't-care in the other one (that build
+// documents patterns as unsupported).
+bool regex_view_applies(int type, const std::string &name_sel, const std::string &unit_sel, const std::string &name, const std::string &unit) {
+  sm::ViewRegistry reg;
+  reg.AddView(std::unique_ptr<sm::InstrumentSelector>(new sm::InstrumentSelector(sm::InstrumentType::kCounter, name_sel, unit_sel)),
+              std::unique_ptr<sm::MeterSelector>(new sm::MeterSelector("", "", "")), std::unique_ptr<sm::View>(new sm::View("picked")));
+  sm::InstrumentDescriptor d = {name, "d", unit, (sm::InstrumentType)type, sm::InstrumentValueType::kLong};
+  auto scope = ot::sdk::instrumentationscope::InstrumentationScope::Create("m", "1", "");
+  bool applied = false;
+  reg.FindViews(d, *scope, [&](const sm::View &v) { applied |= v.GetName() == "picked"; return true; });
+  return applied;
+}
+void run_selectors(vf::Ctx &c, const Case &k) {
+  const std::string sel = kNameSel[k.input], usel = kUnitSel[k.kind];
+  static const char *const names[] = {"abc", "ab", "a.c", "abcd", "a-b/c_d", "a"};
+  static const char *const units[] = {"ms", ""};
+  bool plain = true;  // no character with a meaning in a pattern
+  for (char ch : sel) plain &= alpha((unsigned char)ch) || digit((unsigned char)ch) || ch == '_' || ch == '-' || ch == '/';
+  std::string canon;
+  for (const char *name : names)
+    for (const char *unit : units)
+      for (int type : {(int)sm::InstrumentType::kCounter, (int)sm::InstrumentType::kHistogram}) {
+        Tri name_t = sel == "*" || sel == name ? MUST_ACCEPT : plain ? MUST_REJECT : DONT_CARE;
+        bool pattern_says = false;
+        if (name_t == DONT_CARE) { std::string n = name; pattern_says = std::regex_match(n.begin(), n.end(), std::regex(sel)); }
+        const bool others = (usel.empty() || usel == unit) && type == (int)sm::InstrumentType::kCounter;
+        const std::string desc = vf::sfmt("view {Counter, name selector '%s', unit selector '%s'} asked about %s '%s' unit '%s'", sel.c_str(), usel.c_str(),
+                                          type == (int)sm::InstrumentType::kCounter ? "Counter" : "Histogram", name, unit);
+        c.stage("FindViews");
+        bool re = regex_view_applies(type, sel, usel, name, unit);
+        bool want_re = others && (name_t == MUST_ACCEPT || (name_t == DONT_CARE && pattern_says));
+        c.check(re == want_re, re ? "C19:view-selector:applied-to-unselected-instrument" : "C19:view-selector:selected-instrument-not-matched", desc + vf::sfmt(": applied=%d", (int)re));
+        c.stage("FindViews(no-regex)");
+        bool hw = noregex_view_applies(type, sel, usel, name, unit);
+        c.step(2);
+        if (!others || name_t == MUST_REJECT) {
+          if (hw) c.report("C19:noregex:view-selector:applied-to-unselected-instrument", "without working std::regex: " + desc + ": applied");
+        } else if (name_t == MUST_ACCEPT && !hw) {
+          c.report(sel == "*" ? "C19:noregex:view-selector:wildcard-not-matched" : "C19:noregex:view-selector:exact-name-not-matched",
+                   "without working std::regex (PatternPredicate::Match returns false for every input): " + desc + ": not applied");
+        }
+        if (name_t == DONT_CARE && others) c.counted(hw == pattern_says ? "noregex-selector:pattern:as-regex" : "noregex-selector:pattern:unsupported");
+        canon += vf::sfmt("%d%d", (int)re, (int)hw);
+      }
+  c.state("sel|" + sel + "|" + usel + "|" + canon);
+  c.outcome("sel|" + canon);
+  c.sample(vf::sfmt("name selector '%s' unit selector '%s' over 6 names x 2 units x {Counter,Histogram}: applied (regex build, no-regex build) = ", sel.c_str(), usel.c_str()) + canon);
+}
+
 void run(vf::Ctx &c) {
   int nblocks = (int)((g_cases.size() + kBlock - 1) / kBlock);
   int b = c.pick("block", nblocks);
@@ -442,7 +484,8 @@ void run(vf::Ctx &c) {
   int i = c.pick("case", left < kBlock ? left : kBlock);
   const Case &k = g_cases[(size_t)b * kBlock + i];
   if (k.what <= 1) run_create(c, k);
-  else run_diff(c, k);
+  else if (k.what <= 3) run_diff(c, k);
+  else run_selectors(c, k);
 }
 
 }  // namespace
